@@ -36,6 +36,7 @@ type Obl struct {
 	Model   string
 	Output  string
 	SmtFile string
+	Candidate bool // counterexample came from the weakened (quantifier-free hypotheses) query
 }
 
 // Place is a storage location for a non-struct value.
@@ -54,6 +55,7 @@ type Val struct {
 	fn    *ssa.Function // statically known function value
 	binds []Val         // closure bindings
 	typ   types.Type
+	callGuard string // for call results: the path condition under which the call happened
 }
 
 type deferred struct {
@@ -183,7 +185,11 @@ func (un *Unit) safety(st *State, fr *Frame, kind, desc string, goal string, pos
 	if n := un.safetyN[base]; n > 1 {
 		name = fmt.Sprintf("%s#%d", base, n)
 	}
-	un.oblige(st, "safety", name, nil, goal, pos, kind+" "+desc)
+	var props []string
+	if un.contract != nil {
+		props = un.contract.Safety
+	}
+	un.oblige(st, "safety", name, props, goal, pos, kind+" "+desc)
 }
 
 func shortFn(fn *ssa.Function) string {
